@@ -4101,10 +4101,13 @@ impl PrimitiveStructuralEncoder {
             .repetition_levels
             .as_ref()
             .map_or(0, |r| r.iter().max().copied().unwrap_or(0));
+        // If there are definition levels they must be written even when they are all zero (a
+        // validity bitmap without nulls): the interpretation stored next to them still says
+        // "nullable" and the reader expects the buffer.
         let max_def = repdef
             .definition_levels
             .as_ref()
-            .map_or(0, |d| d.iter().max().copied().unwrap_or(0));
+            .map_or(0, |d| d.iter().max().copied().unwrap_or(0).max(1));
 
         // To handle FSL we just flatten
         // let data = data.flatten();
